@@ -158,3 +158,22 @@ pub struct PathItem {
 /// A11: a str is determined by its characters
 pub axiom fn ax_str_ext(a: &str, b: &str)
     ensures a@ == b@ ==> a == b;
+/// HashMap<String, usize> counting how often each error-type name has been seen (gen_openapi's error_response_names)
+#[verifier::external_body]
+pub struct NameCounts { _p: u8 }
+pub uninterp spec fn seen(c: NameCounts, name: Seq<char>) -> nat;
+impl NameCounts {
+    /// `.entry(name).and_modify(|num| *num += 1).or_insert(1)`: one more occurrence of this name, nothing else changes;
+    /// the reference points at the new count
+    #[verifier::external_body]
+    pub fn count_one_more(&mut self, name: String) -> (r: &mut usize)
+        ensures
+            *r as nat == seen(*old(self), name@) + 1,
+            seen(*final(self), name@) == seen(*old(self), name@) + 1,
+            forall|other: Seq<char>| other != name@ ==> seen(*final(self), other) == #[trigger] seen(*old(self), other),
+    { unimplemented!() }
+}
+/// `format!("{name}{num}")`: an uninterpreted function of the name and the number
+pub uninterp spec fn numbered(name: Seq<char>, n: nat) -> Seq<char>;
+#[verifier::external_body]
+pub fn name_with_number(name: &String, num: usize) -> (r: String) ensures r@ == numbered(name@, num as nat) { unimplemented!() }
